@@ -8,7 +8,7 @@ FAMILIES = {
 PROPS = {
     "C10": dict(
         family="fmt",
-        theorems=T("C10", "run_sat", "parse_no_oob", "parse_terminates", "parse_no_ub", "null_fmt", "outcomes_all_args",
+        theorems=T("C10", "translated_format_string_is_model", "run_sat", "parse_no_oob", "parse_terminates", "parse_no_ub", "null_fmt", "outcomes_all_args",
                    "char_padding_only_assert", "char_padding_assert_raised", "toString_sat", "outcomes", "zero_args"),
         partial="nothing is assumed about the length of a floating-point rendering (64 bytes and more go through the heap buffer of the repaired code). Two edges of the "
                 "domain are named in the theorems rather than hidden: a result of 2^28 bytes or more trips the documented size-limit assertion of ST::string (outcomes), "
@@ -33,7 +33,7 @@ PROPS = {
 
 PROPS["C11"] = dict(
     family="fmt",
-    theorems=T("C11", "translated_pad_size_is_model", "translated_numeric_layout_is_model", "format_outcome_eq_spec", "format_eq_spec", "format_string_eq_spec", "field_eq_spec", "int_eq_spec", "never_truncated_int", "never_truncated_text",
+    theorems=T("C11", "translated_pad_size_is_model", "translated_numeric_layout_is_model", "translated_format_string_is_model", "format_outcome_eq_spec", "format_eq_spec", "format_string_eq_spec", "field_eq_spec", "int_eq_spec", "never_truncated_int", "never_truncated_text",
                "length_eq_max_int", "length_eq_max_text", "zero_pad_position", "zero_flag", "sequential_ignores_refs", "escape_braces",
                "literal_verbatim", "char_class_wide"),
     partial="floating-point arguments: the libc rendering is a parameter (C13) of any length, assumed non-empty (Arg.LibcRenders: snprintf reports a positive size, "
